@@ -39,3 +39,5 @@ with open(ROOT + "/benign/RESULTS.md", "w") as f:
         f.write("| " + " | ".join(x.replace("|", "\\|") for x in row) + " |\n")
     n = len(rows)
     f.write(f"\n{sum(1 for r in rows if r[2] == 'OK')} OK, {sum(1 for r in rows if r[2].startswith('UNDEC'))} undecided, {sum(1 for r in rows if 'VIOLATION' in r[2])} false alarms, of {n} runs.\n")
+# runs on mutated trees rewrite evidence/*.json: put the committed evidence (from the unchanged tree) back
+subprocess.run(f"git -C {ROOT} checkout -- evidence", shell=True)
